@@ -10,7 +10,7 @@ def events_of(trace, label):
     return [t[2] for t in trace if t[0] == 'event' and t[1] == label]
 
 
-def check_call(trace, expected_fault, user_returned_normally, user_reachable, failing=None):
+def check_call(trace, expected_fault, user_returned_normally, user_reachable, failing=None, method_managers=2, documents=None):
     """Returns a list of (clause, ok, detail).
 
     expected_fault: the scenario ends in a fault (malformed/unknown/invalid request, a raising
@@ -37,7 +37,9 @@ def check_call(trace, expected_fault, user_returned_normally, user_reachable, fa
            and app.count('method_exception_object') <= 1, app)
     chain, other = (EXC_CHAIN, RETURN_CHAIN) if expected_fault else (RETURN_CHAIN, EXC_CHAIN)
     tail = [e for e in app if e in chain or e in other]
-    clause('document_then_string', tail == chain, tail)
+    # documents: None = the transport writes a response document for every call; otherwise the list of document / string
+    # events the transport is expected to produce for this call (NullServer hands native objects over)
+    clause('document_then_string', tail == (chain if documents is None else documents), tail)
     if expected_fault and 'method_exception_object' in app and all(e in app for e in chain):
         clause('exception_chain_order', app.index('method_exception_object') < app.index(chain[0]) < app.index(chain[1]),
                app)
@@ -62,7 +64,8 @@ def check_call(trace, expected_fault, user_returned_normally, user_reachable, fa
     m1, m2 = events_of(trace, 'method'), events_of(trace, 'method2')
     if failing is not None and failing[0] == 'method':
         m1 = [e for e in m1 if e != failing[1]]       # the first manager's listener raised: the event stops there
-    clause('every_manager_of_the_method_is_served', m1 == m2, (m1, m2))
+    if method_managers == 2:
+        clause('every_manager_of_the_method_is_served', m1 == m2, (m1, m2))
     return out
 
 
